@@ -113,7 +113,28 @@ def nodeStep (w : World) (side : Side) (ws : List String) : World × String :=
     let (n', o) := C13Wire.step nn.n ws
     (w.set side (({ nn with n := n' } : NetNode).adopt), o)
 
-def step (w : World) (ws : List String) : World × String :=
+structure St where
+  w : World := {}
+  c : Conn := {}
+
+def showConn (c : Conn) : String :=
+  s!"[{",".intercalate c.conns}] {C13Wire.showHealth c.health}"
+
+/-- connection bookkeeping of one software object: `conn new <max_sessions> <health>`, `conn add <id>`, `conn term <id> <0|1>` -/
+def connStep (c : Conn) (ws : List String) : Conn × String :=
+  match ws with
+  | ["new", mx, h] =>
+    match mx.toNat?, C13Wire.parseHealth h with
+    | some mx, some h => let c' : Conn := { maxSessions := mx, health := h }; (c', showConn c')
+    | _, _ => (c, "bad-op")
+  | ["add", id] => let (c', b) := c.add id; (c', s!"ret {showBool b} {showConn c'}")
+  | ["term", id, sd] =>
+    match parseBool sd with
+    | some sd => let (c', b) := c.terminate id sd; (c', s!"ret {showBool b} {showConn c'}")
+    | none => (c, "bad-op")
+  | _ => (c, "bad-op")
+
+def wstep (w : World) (ws : List String) : World × String :=
   match ws with
   | ["inject", side, via, h, port, pl] =>
     match parseSide side, parseBool via, parseHdr h port, parsePayload pl with
@@ -146,4 +167,9 @@ def step (w : World) (ws : List String) : World × String :=
     | none => (w, "bad-op")
   | [] => (w, "bad-op")
 
-def main : IO Unit := runDriver ({} : World) step
+def step (st : St) (ws : List String) : St × String :=
+  match ws with
+  | "conn" :: rest => let (c', o) := connStep st.c rest; ({ st with c := c' }, o)
+  | ws => let (w', o) := wstep st.w ws; ({ st with w := w' }, o)
+
+def main : IO Unit := runDriver ({} : St) step
